@@ -61,8 +61,8 @@ func TestC02(t *testing.T) {
 		})
 }
 
-var profileC03 = []kindW{{"mocksend", 5}, {"nftsend", 4}, {"mtsend", 3}, {"flow", 9}, {"recv", 1}, {"ack", 9}, {"update", 1},
-	{"commit", 1}, {"clean", 1}, {"recvclean", 1}, {"replay", 4}, {"kwack", 2}}
+var profileC03 = []kindW{{"mocksend", 4}, {"nftsend", 7}, {"mtsend", 6}, {"flow", 5}, {"round", 7}, {"recv", 1}, {"ack", 9}, {"update", 1},
+	{"commit", 1}, {"clean", 1}, {"cleanflow", 1}, {"replay", 4}, {"kwack", 2}, {"rules", 1}, {"nftmint", 1}}
 
 func TestC03(t *testing.T) {
 	runProp(t, "C03",
